@@ -121,11 +121,11 @@ def renderScalar : PyScalar → String
 
 def renderPyVal : PyVal → String
   | .scalar s => renderScalar s
-  | .pair k v => s!"('{asciiStr k}', {renderScalar v})"
+  | .pair _ k v => s!"('{asciiStr k}', {renderScalar v})"
   | .list xs =>
     "[" ++ ", ".intercalate (xs.map (fun x => match x with
       | none => "None"
-      | some (k, v) => s!"('{asciiStr k}', {renderScalar v})")) ++ "]"
+      | some (_, k, v) => s!"('{asciiStr k}', {renderScalar v})")) ++ "]"
   | .dict kvs =>
     "{" ++ ", ".intercalate (kvs.map (fun (k, v) => s!"'{asciiStr k}': {renderScalar v}")) ++ "}"
 
